@@ -365,7 +365,7 @@ def main(tier, seed, replay=None):
     cases = [("const", seed, i) for i in range(1000 if q else 20000)]
     cases += [("len", seed, i) for i in range(270 if q else 4500)]
     cases += [("layout", seed, i) for i in range(300 if q else 6000)]
-    cases += [("word", seed, i) for i in range(60 if q else 3000)]
+    cases += [("word", seed, i) for i in range(300 if q else 3000)]
     for r in common.run_sharded(run_case, cases):
         if r.get("verdict") is None and "harness_error" not in r:
             run.merge_counters(r.get("cov"))
